@@ -76,7 +76,7 @@ def evalSingle (σ : Leaves) (r : Rel) : ProcM (List Row) := do
   let s ← get
   match r.engine.kind with
   | .iter =>
-    match (exec σ r.engine r).run { s.st with log := [] } with
+    match exec σ r.engine r { s.st with log := [] } with
     | .error e => throw e
     | .ok (it, st') =>
       match it.rows σ with
